@@ -16,6 +16,15 @@ Enumerated: baseline + every 1- and 2-dimension deviation (quick: 2-deviations o
 the attachment space (attachment lists x the four structures with attachment slots [x one more deviation in thorough]),
 the full product structure x charset x transfer encoding x line end [x 3 body texts], 4 embedded-message variants of the
 message/rfc822 structure [x one more deviation],
+the embedded-message content family (what a forwarded message itself contains; case-spec dimension "inner" holds a case-spec that is
+laid over the generator's default embedded message): the embedded message with every value of every one of the 17 dimensions as its
+only deviation (subject forms, address lists, dates, ids, 8 structures, 8 attachment lists, charsets, transfer encodings, the 8 body
+texts incl. a line starting with "From ", a lone ".", "-- ", a 160-word line, the empty body), the product 8 body texts x 4 transfer
+encodings x 5 charsets of the embedded message, and a message embedded in the embedded message (4 body texts x 4 transfer encodings),
+each with CRLF and LF line ends of the carrying message, plus the mailboxes of all ordered pairs and triples over {plain message,
+message carrying a message with a "From " body line} x 3 separator forms (thorough: the product x 3 embedded structures, all pairs of values of two of
+{subject, from, to, date, structure, charset, cte, body_plain} inside the embedded message, and every single deviation of the embedded
+message x every single charset / transfer-encoding / body-text deviation of the carrying message),
 the charset family: every charset label (the generator's 5 + the writer's 41 EXTRA_CHARSETS: other single-byte, multibyte 8-bit,
 7-bit stateful iso-2022-jp/-kr, hz, utf-7, wide utf-16/32 with and without BOM, other spellings/case of the labels) x 16 sample
 texts (15 scripts incl. ASCII made of the 7-bit shift characters and non-BMP; "utf8-lookalike" = the text whose bytes in the
@@ -32,7 +41,7 @@ multipart/alternative of structure alternative (case-spec dimension "alt_extra":
 4-form alphabet as two attachments and as alt_extra x attachment of mixed-alt-att (thorough: every form x base64|quoted-printable x
 the four attachment-bearing structures and both alternative-bearing ones x both line ends, x 3 separator forms),
 each as .eml and as single-message mbox in all three separator forms (quick: the two charset families and the part-form family as
-mbox in the standard form only); the From-line variants for all <=1-deviations; all
+mbox in the standard form only, likewise the embedded-message content family); the From-line variants for all <=1-deviations; all
 ordered pairs and triples over a 6-spec alphabet x 9 separator/From-line variants; the empty mailbox.
 
 Oracle (clauses): subject, from, to, cc, bcc, reply_to, date (same instant), message_id, in_reply_to, body_plain, body_html,
@@ -308,6 +317,10 @@ def to_spec(cs: dict) -> dict:
             spec[k] = [copy.deepcopy(atom(a)) for a in v]
         elif k == "text":
             continue
+        elif k == "inner" and isinstance(v, dict):
+            # embedded-message content family: the embedded message is itself a case-spec over the generator's grammar, laid over
+            # the generator's default embedded message (us-ascii, 7bit, plain); every key present applies, index 0 included
+            spec[k] = dict(copy.deepcopy(_I0), **to_spec(v))
         else:
             spec[k] = copy.deepcopy(DOM[k][v])
     if cs.get("text"):
@@ -414,6 +427,57 @@ def inner_specs(tier: str) -> list:
     return [c for c in out if expressible(c)]
 
 
+INNER_STRUCTS = [0, 2, 4]            # structures of the embedded message in the decoding product: plain, alternative, mixed-plain-att-att
+NEST_BODIES = [0, 2, 4, 6]          # body texts of a message embedded in an embedded message
+
+
+def inner_content_specs(tier: str) -> list:
+    """Embedded-message content family: the embedded message of structure rfc822-attachment ranges over the generator's own grammar
+    (case-spec dimension "inner" holds a case-spec, laid over the generator's default embedded message):
+      (a) every value of every dimension as the only deviation (attachment lists with structure mixed-plain-att-att),
+      (b) the product body text x transfer encoding x charset (quick: embedded structure plain; thorough: x 3 embedded structures),
+      (c) a message embedded in the embedded message: 4 body texts x 4 transfer encodings,
+    each with CRLF and LF line ends of the carrying message (thorough: (a) also x every single charset / transfer-encoding / body-text
+    deviation of the carrying message, and every pair of values of two different dimensions {subject, from, to, date, structure, charset, cte, body_plain}
+    inside the embedded message)."""
+    single = []
+    for k in DIMS:
+        if k == "attachments":
+            for lst in ATT_DOMAIN[1:]:
+                single.append({"structure": 4, "attachments": lst})
+            continue
+        for v in range(BASE_LEN[k]):
+            single.append({k: v})
+    inn = list(single)
+    for b in range(BASE_LEN["body_plain"]):
+        for cte in range(len(DOM["cte"])):
+            for c in range(BASE_LEN["charset"]):
+                for st in (INNER_STRUCTS[:1] if tier == "quick" else INNER_STRUCTS):
+                    x = {"body_plain": b, "cte": cte, "charset": c}
+                    if st:
+                        x["structure"] = st
+                    inn.append(x)
+    for b in NEST_BODIES:
+        for cte in range(len(DOM["cte"])):
+            inn.append({"structure": 7, "inner": {"body_plain": b, "cte": cte}})
+    if tier != "quick":
+        pd = ["subject", "from", "to", "date", "structure", "charset", "cte", "body_plain"]
+        for a, b in itertools.combinations(pd, 2):
+            for va in range(BASE_LEN[a]):
+                for vb in range(BASE_LEN[b]):
+                    inn.append({a: va, b: vb})
+    out = []
+    for x in inn:
+        out.append({"structure": 7, "inner": x})
+        out.append({"structure": 7, "inner": x, "line_end": 1})
+    if tier != "quick":
+        for x in single:
+            for k in ("charset", "cte", "body_plain"):
+                for v in range(1, BASE_LEN[k]):
+                    out.append({"structure": 7, "inner": x, k: v})
+    return [c for c in out if expressible(c)]
+
+
 def decoding_specs(tier: str) -> list:
     """Full product of the dimensions that decide how a body is decoded: structure x charset x transfer encoding x line end
     (thorough: x three body texts)."""
@@ -432,6 +496,7 @@ def decoding_specs(tier: str) -> list:
 
 
 MULTI_ALPHA = [{}, {"structure": 2}, {"structure": 4}, {"body_plain": 4}, {"cte": 3, "subject": 1}, {"body_plain": 6}]
+EMB_ALPHA = [{}, {"structure": 7, "inner": {"body_plain": 4}}]       # plain message | message carrying a message with a "From " body line
 SEPS = ["standard", "no-blank-line", "crlf"]
 FLBS = [None, "escaped", "unescaped"]
 
@@ -450,7 +515,7 @@ def all_cases(tier: str) -> list:
     atts = att_specs(tier)
     seen = set()
     main = singles + atts + decoding_specs(tier) + inner_specs(tier)
-    fam = charset_specs(tier) + subject_charset_specs(tier) + partform_specs(tier)
+    fam = charset_specs(tier) + subject_charset_specs(tier) + partform_specs(tier) + inner_content_specs(tier)
     for n, cs in enumerate(main + fam):
         key = json.dumps(cs, sort_keys=True)
         if key in seen:
@@ -486,6 +551,16 @@ def all_cases(tier: str) -> list:
                     c = {"specs": [dict(x) for x in combo], "sep": sep, "flb": flb}
                     if _mbox_ok(c):
                         cases.append(("mbox", c))
+    # mailboxes whose messages carry an embedded message with a line starting with "From " (escaped by the mailbox writer): the
+    # message boundaries are only at the separator lines
+    for n in (2, 3):
+        for combo in itertools.product(EMB_ALPHA, repeat=n):
+            if not any("inner" in x for x in combo):
+                continue
+            for sep in SEPS:
+                c = {"specs": [copy.deepcopy(x) for x in combo], "sep": sep, "flb": None}
+                if _mbox_ok(c):
+                    cases.append(("mbox", c))
     for name in ("basic_email", "msg_with_attachment"):
         cases.append(("msg", {"fixture": name}))
     return cases
@@ -576,8 +651,27 @@ def _same_message(a: bytes, b: bytes) -> bool:
         return False
 
 
-def match_attachments(exp_atts, inline, got_atts):
-    """-> (list of (clause, message), aligned pairs [(exp, got)...]).  Inline parts of multipart/related may or may not be listed."""
+def _mboxo(b: bytes) -> bytes:
+    """The bytes as an mboxo mailbox stores them: every line starting with "From " is written as ">From " (lossy)."""
+    return (b"\n" + b).replace(b"\nFrom ", b"\n>From ")[1:]
+
+
+def _validate(spec: dict) -> list:
+    """mail.validate, minus differences that are only the standard library's re-serialisation of an equivalent embedded message (its
+    generator writes an empty line after the closing delimiter of a multipart nested in the embedded message)."""
+    out = []
+    for d in mail.validate(spec):
+        if d[0] == "attachments" and len(d[1]) == len(d[2]) and all(
+                a == b or (a[:2] == b[:2] and a[1] == "message/rfc822" and _same_message(a[2], b[2])) for a, b in zip(d[1], d[2])):
+            continue
+        out.append(d)
+    return out
+
+
+def match_attachments(exp_atts, inline, got_atts, mboxo: bool = False):
+    """-> (list of (clause, message), aligned pairs [(exp, got)...]).  Inline parts of multipart/related may or may not be listed.
+    mboxo: the message was read from an mbox file, where the 7bit/8bit lines of an embedded message that start with "From " are stored
+    as ">From " - the embedded message in either form is accepted (as for the bodies)."""
     inl = [(a[1], a[2]) for a in inline]
     g2 = list(got_atts)
     if len(g2) != len(exp_atts):
@@ -592,10 +686,20 @@ def match_attachments(exp_atts, inline, got_atts):
             fails.append(("att_name", "attachment %d: expected name %r, got %r" % (i, e[0], g[0])))
         if (e[1] or "").lower() != (g[1] or "").lower():
             fails.append(("att_type", "attachment %d (%r): expected type %r, got %r" % (i, e[0], e[1], g[1])))
-        same = (_eol(e[2]) == _eol(g[2]) or _same_message(e[2], g[2])) if e[1] == "message/rfc822" else (e[2] == g[2])
+        if e[1] == "message/rfc822":
+            forms = [e[2]] + ([_mboxo(e[2])] if mboxo and _mboxo(e[2]) != e[2] else [])
+            same = any(_eol(x) == _eol(g[2]) or _same_message(x, g[2]) for x in forms)
+        else:
+            same = e[2] == g[2]
         if not same:
-            fails.append(("att_bytes", "attachment %d (%r, %s): expected %d bytes %s, got %d bytes %s" % (
-                i, e[0], e[1], len(e[2]), short(e[2], 80), len(g[2]), short(g[2], 80))))
+            where = ""
+            if e[1] == "message/rfc822":
+                el, gl = _eol(e[2]).split(b"\n"), _eol(g[2]).split(b"\n")
+                k = next((j for j, (x, y) in enumerate(zip(el, gl)) if x != y), min(len(el), len(gl)))
+                where = "; first differing line %d: attached %s, returned %s" % (
+                    k + 1, short(el[k] if k < len(el) else None, 60), short(gl[k] if k < len(gl) else None, 60))
+            fails.append(("att_bytes", "attachment %d (%r, %s): expected %d bytes %s, got %d bytes %s%s" % (
+                i, e[0], e[1], len(e[2]), short(e[2], 80), len(g[2]), short(g[2], 80), where)))
         pairs.append((e, g, same))
     return fails, pairs
 
@@ -603,7 +707,7 @@ def match_attachments(exp_atts, inline, got_atts):
 ADDR_FIELDS = ("to", "cc", "bcc", "reply_to")
 
 
-def compare(exp: dict, got: dict, spec_full: dict, body_alt: dict | None = None) -> list:
+def compare(exp: dict, got: dict, spec_full: dict, body_alt: dict | None = None, mboxo: bool = False) -> list:
     """Clauses violated by `got` (lib_dict) against the ground truth `exp` (mail.truth)."""
     fails = []
     # subject
@@ -638,7 +742,7 @@ def compare(exp: dict, got: dict, spec_full: dict, body_alt: dict | None = None)
         alts = [exp[f]] + ([body_alt[f]] if body_alt else [])
         if not any(body_same(a, got[f], exp["body_fuzzy"]) for a in alts):
             fails.append((f, "expected %s, got %s" % (short(exp[f], 160), short(got[f], 160))))
-    af, _ = match_attachments(exp["attachments"], exp["inline"], got["attachments"])
+    af, _ = match_attachments(exp["attachments"], exp["inline"], got["attachments"], mboxo)
     return fails + af
 
 
@@ -674,9 +778,9 @@ def _standalone(name: str, mime: str, data: bytes, named: bool = True):
     return [json.dumps(r.to_json(), sort_keys=True, default=str) for r in ex(io.BytesIO(data), name)]
 
 
-def attachment_extract_fails(exp: dict, got: dict) -> list:
+def attachment_extract_fails(exp: dict, got: dict, mboxo: bool = False) -> list:
     from sharepoint2text.parsing.mime_types import MIME_TYPE_MAPPING
-    af, pairs = match_attachments(exp["attachments"], exp["inline"], got["attachments"])
+    af, pairs = match_attachments(exp["attachments"], exp["inline"], got["attachments"], mboxo)
     if not pairs:
         return []
     fails = []
@@ -745,7 +849,7 @@ def eval_eml(case):
     spec = to_spec(case["spec"])
     full = mail.full_spec(spec)
     data = mail.eml(spec)
-    inv = mail.validate(spec)
+    inv = _validate(spec)
     if inv:
         raise WriterInvalid("eml %s: %s" % (case, short(inv, 300)))
     exp = mail.truth(spec)
@@ -788,7 +892,10 @@ def agree_fails(e: dict, m: dict, skip_fields: set, mboxo: dict) -> list:
             esc = ("\n" + (a or "").replace("\r\n", "\n")).replace("\nFrom ", "\n>From ")[1:]
             same = ws(a) == ws(b) or ws(esc) == ws(b)
         else:
-            same = [((x[1] or "").lower(), _eol(x[2])) for x in a] == [((x[1] or "").lower(), _eol(x[2])) for x in b]
+            # an embedded message: the mailbox stores its 7bit/8bit "From " lines as ">From " (as for the bodies)
+            def forms(x):
+                return [_eol(x[2])] + ([_eol(_mboxo(x[2]))] if (x[1] or "").lower() == "message/rfc822" else [])
+            same = len(a) == len(b) and all((x[1] or "").lower() == (y[1] or "").lower() and _eol(y[2]) in forms(x) for x, y in zip(a, b))
         if not same:
             out.append(("agree:" + ("body" if f.startswith("body_") else f), "the same message read as .eml gives %s = %s, as single-message .mbox %s" % (
                 f, short(a if f != "attachments" else [(x[0], x[1], len(x[2])) for x in a], 140),
@@ -837,9 +944,9 @@ def eval_mbox(case):
     shapes = []
     for i, (m, g, full) in enumerate(zip(expd["messages"], gots, fulls)):
         alt = {"body_plain": m["body_plain_mboxo"], "body_html": m["body_html_mboxo"]}
-        f1 = compare(m, g, full, alt)
+        f1 = compare(m, g, full, alt, mboxo=True)
         fails += [(c, "message %d of %d: %s" % (i, len(gots), t)) for c, t in f1]
-        fails += [(c, "message %d of %d: %s" % (i, len(gots), t)) for c, t in attachment_extract_fails(m, g)]
+        fails += [(c, "message %d of %d: %s" % (i, len(gots), t)) for c, t in attachment_extract_fails(m, g, mboxo=True)]
         shapes.append(_shape(g))
     if len(specs) == 1 and not case.get("flb"):
         # the same message (same line ends) as .eml
@@ -955,7 +1062,12 @@ def _shrink_spec(cs):
         if k == "structure" and ("attachments" in c or "alt_extra" in c):
             continue
         yield c
-    if cs.get("inner", 0) > 3:
+    inner = cs.get("inner", 0)
+    if isinstance(inner, dict):
+        # embedded-message content family: towards the generator's default embedded message, one dimension at a time
+        for c in _shrink_spec(inner):
+            yield dict(cs, inner=c)
+    elif inner > 3:
         yield dict(cs, inner=3)                        # nested twice -> embedded message with attachments
     if cs.get("structure") in (3, 6, 7) and "inner" not in cs:
         yield dict(cs, structure=4)                    # the plainest attachment-bearing structure
@@ -1017,6 +1129,9 @@ def _spec_embeds(small, big) -> bool:
         if k in ("attachments", "alt_extra"):
             it = iter(big[k])
             if not all(any(a == b for b in it) for a in v):
+                return False
+        elif k == "inner" and isinstance(v, dict):
+            if not (isinstance(big[k], dict) and _spec_embeds(v, big[k])):
                 return False
         elif k == "structure" and ((v == 4 and big[k] in ATT_STRUCTS) or (v == 1 and big[k] in (1, 2, 3, 5))):
             continue                                   # 4 / 1: the plainest attachment-bearing / HTML-bearing structure (see _shrink_spec)
@@ -1108,6 +1223,7 @@ def run(ctx):
         if fmt == "eml":
             s["bytes"] = mail.eml(to_spec(case["spec"])).decode("latin-1")[:400]
         samples.append(s)
+    n_inner = sum(1 for f, c in cases if f == "eml" and isinstance(c["spec"].get("inner"), dict))
     cov = {"evaluations": ev, "distinct_nontrivial": len(outcomes), "exhaustive": True,
            "rule": "every message spec with <= 2 deviating dimensions over the 17-dimension grammar of verif.gen.mail (quick: 2-deviations "
                    "only with structure or charset), plus attachment lists (15 atoms as singletons, all ordered pairs over {txt, docx, "
@@ -1119,16 +1235,24 @@ def run(ctx):
                    "(%d content types x Content-Disposition {attachment, ATTACHMENT, inline, absent} x name {none, filename, name on Content-Type, both} "
                    "where expressible; unnamed text/plain|html without an attachment disposition excluded as bodies; thorough: x base64|quoted-printable) as the "
                    "only attachment of mixed-plain-att-att and as a third representation in multipart/alternative, + ordered pairs over a 4-form alphabet "
-                   "(thorough: x 4 attachment-bearing and 2 alternative-bearing structures x 2 line ends x 3 separator forms), quick: as .eml and standard mbox only; each spec as .eml and as single-message mbox x {standard, no-blank-line, crlf}; the <=1-deviation specs also "
+                   "(thorough: x 4 attachment-bearing and 2 alternative-bearing structures x 2 line ends x 3 separator forms), quick: as .eml and standard mbox only; "
+                   "the embedded-message content family: the message/rfc822 attachment of structure rfc822-attachment with every value of every "
+                   "one of the 17 dimensions as the embedded message's only deviation, the product 8 body texts x 4 transfer encodings x 5 charsets "
+                   "of the embedded message (thorough: x 3 embedded structures, + all value pairs of two of 8 dimensions inside the embedded message, "
+                   "+ every single deviation of the embedded x every single charset / transfer-encoding / body-text deviation of the carrying message), a message embedded in the embedded "
+                   "message (4 body texts x 4 transfer encodings), each x CRLF|LF of the carrying message (%d specs), quick: as .eml and standard mbox only, "
+                   "+ all ordered pairs and triples over {plain message, message carrying a message with a From_ body line} x 3 separators; each spec as .eml and as single-message mbox x {standard, no-blank-line, crlf}; the <=1-deviation specs also "
                    "with the escaped / unescaped From-line body variant; all ordered pairs and triples over a 6-spec alphabet x 3 separators x "
                    "3 From-line variants; the empty mailbox; 2 .msg fixtures. distinct_nontrivial = distinct (format, observed shape, "
                    "violated clauses) classes" % (len(DOM["charset"]), len(TEXTS) - 1, len(DOM["subject"]) - BASE_LEN["subject"],
-                                                 len(pf_atoms(ctx.tier)), len(PF_TYPES)),
+                                                 len(pf_atoms(ctx.tier)), len(PF_TYPES), n_inner),
            "bounds": {"charset_labels": len(DOM["charset"]), "sample_texts": len(TEXTS) - 1, "transfer_encodings": len(DOM["cte"]),
                       "charset_family_specs": sum(1 for f, c in cases if f == "eml" and "text" in c["spec"]),
                       "partform_atoms": len(pf_atoms(ctx.tier)), "partform_types": len(PF_TYPES),
                       "partform_specs": sum(1 for f, c in cases if f == "eml" and any(
                           a.startswith("pf/") for a in c["spec"].get("attachments", []) + c["spec"].get("alt_extra", []))),
+                      "embedded_message_content_specs": n_inner, "embedded_body_texts": BASE_LEN["body_plain"],
+                      "embedded_nesting_depth": 2,
                       "subject_charset_specs": sum(1 for f, c in cases if f == "eml" and c["spec"].get("subject", 0) >= BASE_LEN["subject"])},
            "message_specs": nsingle, "per_format": per_fmt, "sub_checks": checks, "outcomes": dict(sorted(outcomes.items(), key=lambda kv: -kv[1])[:80]),
            "samples": samples}
@@ -1142,7 +1266,8 @@ def run(ctx):
         "the bytes of a message/rfc822 attachment are compared modulo CRLF/LF (7bit/8bit parts have transport line ends) and, failing that, "
         "as messages (a re-serialised but equivalent embedded message, e.g. 8bit turned into quoted-printable, is accepted); the inline image "
         "of multipart/related may or may not be listed as an attachment",
-        "mbox bodies: both the original text and the mboxo-escaped ('>From ') text as mailbox.mbox reads it back are accepted",
+        "mbox bodies: both the original text and the mboxo-escaped ('>From ') text as mailbox.mbox reads it back are accepted; likewise a "
+        "message/rfc822 attachment read from an mbox file is accepted with its 'From ' lines in either form (in an .eml file only the exact lines)",
         "mbox with an *unescaped* From line in a body is not a valid mboxo file: only the message count is judged (any count from the written "
         "one to mailbox.mbox's is accepted) and an exception there is not judged",
         "att_extract is evaluated only for attachments whose type and bytes came back right; 'supported' = routable by file name and/or "
